@@ -234,6 +234,8 @@ int simk_poll(struct pollfd *ufds, nfds_t nfds, int timeout) {
     parked = true;
     k->park(t, poll_ready, dl, K_poll);
     t->pfds = nullptr;
+    // buggify: a thread whose poll timed out is not scheduled at once (wake-up latency is legal on any kernel)
+    if (t->timed_out && k->w.jitter_mode >= 1 && k->ch.choose(6) == 0) k->now_ns += (int64_t) (5 + k->ch.choose(90)) * 1000000;
     cnt = poll_scan(k, p, v.data(), v.size());
     if (cnt == 0 && f) FAIL(K_poll, (int64_t) nfds, timeout, 0, f->err, RF_INJECTED | RF_PARKED);
   }
@@ -303,7 +305,7 @@ int simk_close(int fd) {
   k->fd_close(p, fd);
   if (libctx(t) && !t->child && k->w.reoccupy_num && k->ch.choose(100) < k->w.reoccupy_num) {
     // buggify: another part of the program immediately re-uses the number
-    int nfd = k->fd_alloc(p, 0);
+    int nfd = k->fd_alloc(p, 3);  // never a standard stream number: those have a meaning of their own for the next start
     if (nfd >= 0) {
       OFD *o = k->ofd_new(OFD::NUL);
       o->acc = O_RDWR;
